@@ -323,6 +323,8 @@ class FakeSocket:
     def bind(self, addr):
         self._check_open()
         host, port = addr[0], addr[1]
+        if not isinstance(port, int) or not 0 <= port <= 65535:
+            raise OverflowError("bind(): port must be 0-65535.")
         if self.type == _real_socket.SOCK_DGRAM:
             self.sim.net.udp_bind(self, host, port)
         self.local = (host, port)
@@ -447,6 +449,7 @@ class TcpConn:
         self.recv_log: List[bytes] = []
         self.anomalies: List[str] = []
         self.stall_until_us = 0            # the peer's receive window is closed until then
+        self.rst_errno = errno.ECONNRESET
         self.tag = sock.tag
 
     # ---- client side, called by FakeSocket
@@ -520,8 +523,9 @@ class TcpConn:
             return data
         if self.rx_rst:
             self.rst_raised = True
-            sim.rec("tcp", self.cid, "recv", "RST")
-            raise ConnectionResetError(errno.ECONNRESET, "Connection reset by peer")
+            sim.rec("tcp", self.cid, "recv", "RST", self.rst_errno)
+            # OSError picks the matching subclass: ConnectionResetError, TimeoutError, BrokenPipeError or plain OSError
+            raise OSError(self.rst_errno, os.strerror(self.rst_errno))
         if self.rx_fin:
             sim.rec("tcp", self.cid, "recv", "EOF")
             self.recv_log.append(b"")
@@ -557,8 +561,9 @@ class TcpConn:
                 self.sim.rec("tcp", self.cid, "fin")
         self.sim.at(delay, deliver)
 
-    def dev_rst(self, delay: float = 0.0):
+    def dev_rst(self, delay: float = 0.0, err: int = errno.ECONNRESET):
         def deliver():
+            self.rst_errno = err
             self.rx_rst = True
             self.rx.clear()
             self.sim.rec("tcp", self.cid, "rst")
@@ -773,10 +778,31 @@ class SimContext:
                 return wrapper
             setattr(st.StreamReader, name, make(orig, name))
 
+        # the same for what the application hands to StreamWriter: "every byte string the client writes"
+        self._writer_orig = {}
+        for name in ("write", "writelines"):
+            orig = getattr(st.StreamWriter, name)
+            self._writer_orig[name] = orig
+
+            def make_w(orig, name):
+                def wrapper(writer, data):
+                    blob = b"".join(bytes(x) for x in data) if name == "writelines" else bytes(data)
+                    sock = getattr(getattr(writer, "_transport", None), "_sock", None)
+                    conn = getattr(sock, "conn", None)
+                    sim.rec("app-write", getattr(conn, "cid", None), blob.hex())
+                    tag = getattr(conn, "tag", None)
+                    if tag is not None:
+                        tag.on_app_write(conn, blob)
+                    return orig(writer, data)
+                return wrapper
+            setattr(st.StreamWriter, name, make_w(orig, name))
+
     def _unpatch_reader(self):
         import asyncio.streams as st
         for name, orig in getattr(self, "_reader_orig", {}).items():
             setattr(st.StreamReader, name, orig)
+        for name, orig in getattr(self, "_writer_orig", {}).items():
+            setattr(st.StreamWriter, name, orig)
 
     def __exit__(self, *exc):
         import asyncio.base_events as be
